@@ -598,4 +598,41 @@ PropDefault(c, e) ==
   /\ e.froms = Cardinality(DefaultFromCalls(c))
   /\ c.opts.newfn => e.newres = e.res
 
+
+\* ======================================================================
+\* Deref / DerefMut (C09)
+\* ======================================================================
+\* The designated field of a variant: the sole field, or the one carrying the
+\* marker (Deref and DerefMut markers are independent).
+DerefMarked(c, v) == { i \in FieldIdx(c, v) : c.variants[v].fields[i].deref }
+DMutMarked(c, v)  == { i \in FieldIdx(c, v) : c.variants[v].fields[i].dmut }
+Designated(c, v, marked) == IF NFields(c, v) = 1 THEN 1 ELSE CHOOSE i \in marked : TRUE
+DerefField(c, v) == Designated(c, v, DerefMarked(c, v))
+DMutField(c, v)  == Designated(c, v, DMutMarked(c, v))
+
+\* unambiguous designation in every variant; no unit variants (C13 otherwise)
+DerefWellDesignated(c) ==
+  /\ NVariants(c) >= 1
+  /\ \A v \in 1..NVariants(c) :
+       /\ NFields(c, v) >= 1
+       /\ NFields(c, v) > 1 => Cardinality(DerefMarked(c, v)) = 1
+       /\ NFields(c, v) = 1 => Cardinality(DerefMarked(c, v)) <= 1
+       /\ IF HasTrait(c, "DerefMut")
+          THEN /\ NFields(c, v) > 1 => Cardinality(DMutMarked(c, v)) = 1
+               /\ NFields(c, v) = 1 => Cardinality(DMutMarked(c, v)) <= 1
+          ELSE DMutMarked(c, v) = {}
+
+\* e: one observation on a value of variant e.a.v: di / dmi = index of the field
+\* whose storage (or referent) `&*x` / `&mut *x` points at (0 = none of them);
+\* after = fingerprint of all fields after `*x = W` where W is a fresh probe
+\* <<"c", 9, 5, 0>>.
+PropDeref(c, e) ==
+  LET v == e.a.v IN
+  /\ e.di = DerefField(c, v)
+  /\ HasTrait(c, "DerefMut") =>
+       /\ e.dmi = DMutField(c, v)
+       /\ e.after[1] = v
+       /\ \A i \in FieldIdx(c, v) :
+             e.after[2][i] = IF i = DMutField(c, v) THEN <<"c", 9, 5, 0>> ELSE <<"a", i, e.a.f[i], 0>>
+
 =============================================================================
